@@ -11,18 +11,36 @@ B = ["my", "pg", "sl"]
 COLS = ["a", "b", "c", "d"]
 
 
+STYLE = [0]
+
+
+def cell(k):
+    """the k-th cell of a row: a plain value, or (style 1 / 2) an expression that itself contains commas - a tuple /
+    row-value or a function call - which is still ONE cell"""
+    st = STYLE[0]
+    if st == 1 and k % 2 == 0:
+        return " (tuple (val i:i32:%d) (val i:i32:%d))" % (k + 1, k + 11)
+    if st == 2 and k % 2 == 0:
+        return " (fn coalesce (val i:i32:%d) (val i:i32:%d))" % (k + 1, k + 11)
+    return " (val i:i32:%d)" % (k + 1)
+
+
+def cells(n):
+    return "".join(cell(k) for k in range(n))
+
+
 def call(kind, n):
     if kind == "columns":
         return "(columns%s)" % "".join(" " + hexs(c) for c in COLS[:n])
     if kind in ("values", "valuespanic", "valuesit", "valuespanicit"):
-        return "(%s%s)" % (kind, "".join(" (val i:i32:%d)" % (k + 1) for k in range(n)))
+        return "(%s%s)" % (kind, cells(n))
     if kind == "valuesfrompanic":
         # two rows of the given length
-        row = "(row%s)" % "".join(" (val i:i32:%d)" % (k + 1) for k in range(n))
+        row = "(row%s)" % cells(n)
         return "(valuesfrompanic %s %s)" % (row, row)
     if kind == "vfpr":
         # a batch of two rows of DIFFERENT lengths (n = (first, second)): every row is checked, not only the first
-        rows = ["(row%s)" % "".join(" (val i:i32:%d)" % (k + 1) for k in range(m)) for m in n]
+        rows = ["(row%s)" % cells(m) for m in n]
         return "(valuesfrompanic %s)" % " ".join(rows)
     if kind == "selectfrom":
         return "(selectfrom (select%s (from (t 75))))" % "".join(" (col (col %s))" % hexs(c) for c in COLS[:n])
@@ -48,6 +66,8 @@ def gen_cases(ctx):
 
     def add(h):
         b = rng.choice(B)
+        # one history in three writes part of its cells as tuples / function calls (one cell each, commas inside)
+        STYLE[0] = rng.choice([0, 0, 0, 0, 1, 2])
         line = "stmt %s (insert (into (t 74)) %s)" % (b, " ".join(call(k, n) for k, n in h))
         HIST[line] = h
         lines.append(line)
